@@ -15,7 +15,7 @@ from .driver import Driver, Config, DriverDied, DriverHang, Res
 VERIF = build.VERIF
 NSHARDS = int(os.environ.get("VERIF_SHARDS", "16"))
 REPLAY_DIR = os.path.join(VERIF, "replays")
-EVIDENCE_DIR = os.path.join(VERIF, "evidence")
+EVIDENCE_DIR = os.environ.get("VERIF_EVIDENCE_DIR", os.path.join(VERIF, "evidence"))
 MAX_VIOL_PER_SHARD = 40
 
 
